@@ -641,8 +641,16 @@ func constTable(g *ssa.Global) map[string]string {
 	roots := map[ssa.Value]bool{g: true}
 	Instrs(ini, func(in ssa.Instruction) {
 		if st, ok := in.(*ssa.Store); ok && st.Addr == ssa.Value(g) {
-			if sl, ok := st.Val.(*ssa.Slice); ok {
-				roots[sl.X] = true
+			switch v := st.Val.(type) {
+			case *ssa.Slice:
+				roots[v.X] = true
+			case *ssa.UnOp:
+				// the literal is built in a temporary and copied into the variable as a whole
+				if v.Op == token.MUL {
+					if al, ok := v.X.(*ssa.Alloc); ok {
+						roots[al] = true
+					}
+				}
 			}
 		}
 	})
@@ -666,13 +674,14 @@ func constTable(g *ssa.Global) map[string]string {
 		}
 	}
 	tbl := map[string]string{}
-	Instrs(ini, func(in ssa.Instruction) {
-		st, ok := in.(*ssa.Store)
-		if !ok {
-			return
-		}
+	// prefix: where in the table a root (the variable, the temporary the literal was built in, the temporaries of
+	// its elements) ends up
+	prefix := map[ssa.Value]string{}
+	for r := range roots {
+		prefix[r] = ""
+	}
+	resolve := func(a ssa.Value) (string, bool) {
 		var steps []string
-		a := st.Addr
 		for i := 0; i < 8; i++ {
 			switch x := a.(type) {
 			case *ssa.FieldAddr:
@@ -682,7 +691,7 @@ func constTable(g *ssa.Global) map[string]string {
 			case *ssa.IndexAddr:
 				cv := ConstVal(x.Index)
 				if cv == nil {
-					return
+					return "", false
 				}
 				steps = append([]string{"[" + cv.ExactString() + "]"}, steps...)
 				a = x.X
@@ -690,11 +699,47 @@ func constTable(g *ssa.Global) map[string]string {
 			}
 			break
 		}
-		if !roots[a] || len(steps) == 0 {
+		pre, ok := prefix[a]
+		if !ok {
+			return "", false
+		}
+		return pre + strings.Join(steps, ""), true
+	}
+	for changed, rounds := true, 0; changed && rounds < 6; rounds++ {
+		changed = false
+		Instrs(ini, func(in ssa.Instruction) {
+			st, ok := in.(*ssa.Store)
+			if !ok {
+				return
+			}
+			u, ok := st.Val.(*ssa.UnOp)
+			if !ok || u.Op != token.MUL {
+				return
+			}
+			al, ok := u.X.(*ssa.Alloc)
+			if !ok {
+				return
+			}
+			if _, have := prefix[al]; have {
+				return
+			}
+			if at, ok := resolve(st.Addr); ok {
+				prefix[al] = at
+				changed = true
+			}
+		})
+	}
+	Instrs(ini, func(in ssa.Instruction) {
+		st, ok := in.(*ssa.Store)
+		if !ok {
 			return
 		}
-		if cv := ConstVal(st.Val); cv != nil {
-			tbl[strings.Join(steps, "")] = cv.ExactString()
+		cv := ConstVal(st.Val)
+		if cv == nil {
+			return
+		}
+		if at, ok := resolve(st.Addr); ok && at != "" {
+			tbl[at] = cv.ExactString()
 		}
 	})
 	constTableCache[g] = tbl
